@@ -26,7 +26,7 @@ RULE = ('case = (configuration with journal on every voter, dump file on/off; st
 ASSUMPTIONS = ['process kill, not power loss', 'kills inside a step are placed at primitive storage writes (a kill between two non-writing instructions equals the kill at the next write)',
                'operator restarts a node on the same journal/dump paths with the same member list']
 
-EXTRA = [('kill', 2), ('restart', 8), ('killall', 1), ('killmid', 10), ('killcompact', 3)]
+EXTRA = [('kill', 2), ('restart', 8), ('killall', 1), ('killmid', 10), ('killcompact', 3), ('ghostfwd', 3)]
 
 
 class JSim(cluster.Sim):
@@ -130,6 +130,10 @@ class JSim(cluster.Sim):
         log = core.log_of(obj)
         have = dict((e[1], e[2]) for e in log[:])
         first = log[0][1] if len(log) else 1
+        if not self.cfg.get('dump') and first > 1:
+            # known finding: this process restarted from a journal whose head was compacted away without a dump
+            # file - its state is gone; everything that follows in this case is a consequence
+            self.jo_compacted = True
         lost = []
         for idx, term in sorted(owed.items()):
             if idx >= first:
@@ -144,6 +148,51 @@ class JSim(cluster.Sim):
                        name, cause, lost[:5], sorted(have.items())[:3] + ['...'] + sorted(have.items())[-2:], obj.raftLastApplied, obj.raftCommitIndex))
         self.owed[name] = dict((i, t) for i, t in owed.items() if have.get(i) == t or i < first)
         return (name,)
+
+    def op_ghostfwd(self, a, b, c):
+        """A follower forwards 1-3 commands and is killed before they (or their replies) travel; the restarted
+        process learns the leader over new connections only and forwards again; then the messages of the dead
+        process are delivered, then everything else. (Data written to a TCP connection before a process dies is
+        still delivered; replies go to whatever connection the sender's address has by then.)"""
+        cands = [n for n in self.voters if n in self.nodes and not self.nodes[n]._isLeader() and self.nodes[n]._getLeader() is not None]
+        if not cands:
+            return False
+        name = self.pick(cands, a)
+        k = 1 + b % 3
+        for i in range(k):
+            self.submit(name, self.payload(b + i, c))
+        self.tick_node(name, 0.005)
+        self.check(light=True)
+        if name not in self.nodes:
+            return False
+        self.prune(name, self.nodes[name])
+        self.last_kill_cause[name] = 'between-steps'
+        self.do_kill(name, 'ghostfwd')
+        self.op_restart(self.dead_voters().index(name), 0, 0)
+        if name not in self.nodes:
+            return (name, 'restart-failed')
+        for _ in range(60):
+            if self.nodes[name]._getLeader() is not None:
+                break
+            for (x, y) in self._connectables():
+                if name in (x, y):
+                    self.net.connect(x, y)
+            for n in self.live():
+                self.tick_node(n, 0.02)
+            for g, to in self._deliverables():
+                if g.alive:
+                    while self.net.deliver(g, to):
+                        pass
+            self.check(light=True)
+        if name in self.nodes:
+            for i in range(k):
+                self.submit(name, self.payload(b + i + 1, c + 1))
+            self.tick_node(name, 0.005)
+        ghosts = sum(len(g.q[to]) for g, to in self._deliverables() if not g.alive)
+        self.counters['ghost_messages'] += ghosts
+        self.drain()
+        self.check(light=True)
+        return (name, k, ghosts)
 
     def op_killcompact(self, a, b, c):
         """Compaction on a node, then a kill before (c even) or after (c odd) the tick that trims the journal,
@@ -282,9 +331,6 @@ def install_monitors(sim):
         sim.note_leader_commits()
         for name in sim.live():
             sim.prune(name, sim.nodes[name])
-            log = core.log_of(sim.nodes[name])
-            if len(log) and log[0][1] > 1:
-                sim.jo_compacted = True
     sim.after_step_hooks.append(hook)
 
 
@@ -335,7 +381,7 @@ def run_once(case, kill_plan):
                     break
         classes = simprop.base_classes(sim)
         classes.add('dump-file' if cfg.get('dump') else 'journal-only')
-        for k in ('stops', 'restarts'):
+        for k in ('stops', 'restarts', 'ghost_messages'):
             if sim.counters.get(k):
                 classes.add(k)
         if sim.kill_points:
